@@ -53,7 +53,10 @@ def judge(chk, prop, spec, results, verdicts, obs_index):
       if v.get(kfc) and prop == "C02":
         chk.known(fid)
     bad = [c for c in spec["clauses"] if not v[c]]
-    if bad:
+    kf27 = "F27" in {f["id"] for f in chk.kf.get("findings", [])} and f27(r["scn"])
+    if bad == ["modes"] and kf27:
+      chk.known("F27")
+    elif bad:
       nviol += 1
       chk.violation("%s false on the observed output graph of scenario %s" % ("/".join(bad), r["key"]),
                     dict(rep, clause=bad, verdict=v))
@@ -63,6 +66,8 @@ def judge(chk, prop, spec, results, verdicts, obs_index):
       chk.cov["interp_data_dependent"] = chk.cov.get("interp_data_dependent", 0) + 1
     elif spec["interp"] and r.get("interp") not in (None, "ok") and "F26" in {f["id"] for f in chk.kf.get("findings", [])} and f26(r["scn"], str(r["interp"])):
       chk.known("F26")
+    elif spec["interp"] and r.get("interp") not in (None, "ok") and kf27 and str(r["interp"]).startswith("error:"):
+      chk.known("F27")
     elif spec["interp"] and r.get("interp") not in (None, "ok"):
       chk.violation("interpreter: %s" % r["interp"], dict(rep, clause="interpreter", interp=r["interp"]))
   return nviol
@@ -75,6 +80,12 @@ def f26(scn, msg):
     return False
   return any(o["kind"] == "BMMC" and (md["m"] == "DRQ" or (md["m"] == "SRQ" and md["a"] == "a16"))
              for sub, modes in zip(scn["subs"], scn["mode"]) for o, md in zip(sub["ops"], modes))
+
+
+def f27(scn):
+  """Known finding F27: a CONSTANT tensor that is also a graph output, under a recipe with a quantising OUTPUT rule: the virtual
+  OUTPUT operator's parameters are written onto the constant without regard to the operators that read it."""
+  return scn["outmode"]["m"] != "NOQ" and any(sub["trole"][t] in ("w", "c", "b") for sub in scn["subs"] for t in sub["gouts"])
 
 
 DESIGN_INVS = ["InvTopo", "InvWellFormed", "InvSkeleton", "InvModes"]
@@ -126,6 +137,8 @@ def main():
   nrand = 400 if args.tier == "quick" else 4000
   rand = [rgen.gen(args.seed * 1000003 + i, 3, 9 if args.tier == "thorough" else 7, nsub=1 if i % 5 else 2) for i in range(nrand)]
   rand += [rgen.gen_fanout(args.seed * 13 + i) for i in range(10 if args.tier == "quick" else 200)]      # one weight, 9-12 readers in two groups
+  rand += rgen.const_output_family()
+  rand += [rgen.gen_const_output(args.seed * 19 + i) for i in range(40 if args.tier == "quick" else 600)]   # a constant that is also a graph output
   # the specification's machine is run on them too (PipelineFrom.tla): design invariants + a predicted terminal state each
   rf, rdumps = pipecheck.design_run_from("%s_random" % prop, rand, spec["inv"], timeout=7200)
   states += rf.distinct
